@@ -1,0 +1,21 @@
+//go:build verif
+
+// Contracts (machine-checked specifications) for the store-once test back end,
+// read by the verifier under /verif. Comments only; compiled only with -tags verif.
+
+package testing
+
+// Store refuses to overwrite a node record (for a context that is not cancelled
+// during the call; a cancelled context makes the inner operations fail with the
+// context's error instead); everything else is the in-memory back end's Store.
+//@ func storage/testing.(*Storage).Store
+//@   let t = ts.Storage.root
+//@   let ni = as(msg, "types.NodeInformation")
+//@   requires[wf] ts != nil && wfStorage(ts.Storage)
+//@   nopanic[C19]
+//@   ensures[C19 once] neverCancelled(ctx) && dynIs(msg, "types.NodeInformation") && ni != nil && old(ni.Id) != "" && old(rtHas(t, "nodeinfo/" + ni.Id)) ==>
+//@   |   err != nil && isDuplicate(err)
+//@   ensures[C19 kept] dynIs(msg, "types.NodeInformation") && err != nil ==> sameView(t)
+//@   ensures[C19 stored] err == nil ==> rtHas(t, pathFor(msg)) && encodes(rtBytes(t, pathFor(msg)), msg) && sameViewBut(t, pathFor(msg))
+//@   ensures[C19 wf] wfStorage(ts.Storage)
+//@   modifies tree(ts.Storage.root)
